@@ -109,6 +109,16 @@ def check(ctx):
     bad = ctx.judge("SysSyncTrace", [t1])
     for b in bad: b["driver"] = "drv_sync"
     ctx.report(bad)
+    # 2b. the library as it is shipped: the same kind of programs on a build with NDEBUG (asserts compiled out - a side effect inside an
+    # assert is only missing there)
+    drv_nd = ctx.cxx("drv_sync_ndebug", srcs, san=None, flags=["-DNDEBUG"])
+    nd = []
+    for i, p in enumerate(programs(ctx.rng, n // 3)):
+        nd += p + ["GO %d log %d" % (ctx.rng.randrange(1, 1 << 30), ctx.rng.choice([0, 30, 60]))]
+    t1b = ctx.drive(drv_nd, nd, "sync_ndebug", timeout=900, env={"VERIF_OP_TIMEOUT": "0"}, par=8)
+    bad = ctx.judge("SysSyncTrace", [t1b], label="SysSyncNdebug")
+    for b in bad: b["driver"] = "drv_sync_ndebug"
+    ctx.report(bad)
     # 3. the same programs under ThreadSanitizer (no logging: the log lock would hide races)
     ts = []
     for i, p in enumerate(programs(ctx.rng, 2500 if ctx.thorough else 80)):
